@@ -21,7 +21,7 @@ MODS = ["GrinVerif.Props.XlatePmmr", "GrinVerif.Props.XlateCons", "GrinVerif.Pro
         # phase 4 / 5
         "GrinVerif.Props.XlatePrune", "GrinVerif.Props.XlateVerify", "GrinVerif.Props.XlateVerifyZ",
         "GrinVerif.Props.XlateVerifyT", "GrinVerif.Props.XlateVerifyD", "GrinVerif.Props.XlateCtx",
-        "GrinVerif.Props.XlateBag", "GrinVerif.Props.XlateSelect"]
+        "GrinVerif.Props.XlateBag", "GrinVerif.Props.XlateSelect", "GrinVerif.Props.XlatePackW"]
 MODS = [m for m in MODS if os.path.exists("/verif/lean/" + m.replace(".", "/") + ".lean")]
 MODS = [m for m in MODS if m.split(".")[-1] not in os.environ.get("XLATE_MUT_SKIP", "").split(",")]
 PR, CU, CZ, CT, CD, CM, PC, BK = rs2lean.PRUNE, rs2lean.CUCKAROO, rs2lean.CUCKAROOZ, rs2lean.CUCKATOO, rs2lean.CUCKAROOD, \
@@ -46,6 +46,9 @@ MUTS_P = [   # phase 4 / 5: run with `mutate.py P`
  ("P17 root: bagging pair swapped (peak, rhash) -> (rhash, peak)", P, "\t\tlet peaks = self.peaks();\n\t\tlet mmr_size = self.unpruned_size();\n\t\tfor peak in peaks.into_iter().rev() {\n\t\t\tres = match res {\n\t\t\t\tNone => Some(peak),\n\t\t\t\tSome(rhash) => Some((peak, rhash)", "\t\tlet peaks = self.peaks();\n\t\tlet mmr_size = self.unpruned_size();\n\t\tfor peak in peaks.into_iter().rev() {\n\t\t\tres = match res {\n\t\t\t\tNone => Some(peak),\n\t\t\t\tSome(rhash) => Some((rhash, peak)"),
  ("P18 create_pow_context: edge_bits > 29 -> edge_bits > 30", G, "\t\tif edge_bits > 29 {\n\t\t\tnew_cuckatoo_ctx", "\t\tif edge_bits > 30 {\n\t\t\tnew_cuckatoo_ctx"),
  ("P19 create_pow_context: arms of header versions 2 and 3 swapped", G, "HeaderVersion(2) => new_cuckarood_ctx(edge_bits, proof_size),\n\t\t\t\tHeaderVersion(3) => new_cuckaroom_ctx(edge_bits, proof_size),", "HeaderVersion(2) => new_cuckaroom_ctx(edge_bits, proof_size),\n\t\t\t\tHeaderVersion(3) => new_cuckarood_ctx(edge_bits, proof_size),"),
+ ("P20 pack_bits: `bit_width < remaining` -> `<=`", PT, "\t\tif bit_width < remaining {\n\t\t\tremaining -= bit_width;", "\t\tif bit_width <= remaining {\n\t\t\tremaining -= bit_width;"),
+ ("P21 pack_bits: buffer advanced by 7 instead of 8", PT, "compressed = &mut compressed[8..];", "compressed = &mut compressed[7..];"),
+ ("P22 pack_bits: `el >> remaining` -> `el >> (remaining - 1)`", PT, "mini_buffer = el >> remaining;", "mini_buffer = el >> (remaining - 1);"),
  ("PB1 benign: locals renamed in cuckaroo verify (uvs -> ends), comment added", CU, None, "cuckaroo_rename"),
 ]
 MUTS = [
